@@ -278,13 +278,25 @@ def concrete(L, env, asg):
     return tot
 
 
-def refute_upper(hi, env, cap=7):
-    """an assignment of the bounded symbols (each 0 or cap) under which hi > B + cap, or None"""
+def refute_upper(hi, env, cap=7, free=(), facts=()):
+    """an assignment of the bounded symbols and of the free integral parameters (0, 1 or cap) that satisfies every test on
+    the path and under which hi > B + cap, or None"""
     import itertools
-    names = sorted(env.bounded)
-    for vals in itertools.product((0, cap), repeat=len(names)):
+    names = sorted(set(env.bounded) | set(free))
+    for vals in itertools.product((0, 1, cap), repeat=len(names)):
         asg = dict(zip(names, vals))
         asg["cap"] = cap
+        ok = True
+        for op, l, r in facts:
+            lv, rv = concrete(l, env, asg), concrete(r, env, asg)
+            if lv is None or rv is None:
+                ok = False
+                break
+            if not {"<": lv < rv, ">": lv > rv, "<=": lv <= rv, ">=": lv >= rv, "==": lv == rv, "!=": lv != rv}[op]:
+                ok = False
+                break
+        if not ok:
+            continue
         v = concrete(hi, env, asg)
         if v is None:
             return None
@@ -377,9 +389,25 @@ def check_function(chk, f, want_destroy, rules, only=("W", "D", "C")):
         env = Env(f, is_ctor)
         evs = []
         facts = []
+        lin_facts = []
+        facts_ok = True
         for ev in p:
             if ev[0] == "cond":
                 facts.append((ev[1], ev[2]))
+                c_ = astx.strip_casts(ev[1])
+                neg_ = False
+                while c_ is not None and c_.get("k") == "un" and c_.get("op") == "!":
+                    neg_ = not neg_
+                    c_ = astx.strip_casts(c_["e"])
+                if c_ is not None and c_.get("k") == "bin" and c_["op"] in ("<", ">", "<=", ">=", "==", "!="):
+                    l_, r_ = lin(c_["l"], env), lin(c_["r"], env)
+                    tk_ = ev[2] != neg_
+                    if l_ is not None and r_ is not None:
+                        lin_facts.append((c_["op"] if tk_ else {"<": ">=", ">": "<=", "<=": ">", ">=": "<", "==": "!=", "!=": "=="}[c_["op"]], l_, r_))
+                    else:
+                        facts_ok = False
+                else:
+                    facts_ok = False
             for e in SP.event_exprs(ev):
                 before = len(evs)
                 events_of(e, env, evs)
@@ -410,7 +438,8 @@ def check_function(chk, f, want_destroy, rules, only=("W", "D", "C")):
                 okk = le(hi, sym("B") + sym("cap"), env)
                 wit_ = None
                 if not okk:
-                    wit_ = refute_upper(hi, env)
+                    free_ = [q["n"] for q in f["params"] if kind_of(q["ty"]) == "n"] if facts_ok else []
+                    wit_ = refute_upper(hi, env, free=free_, facts=lin_facts if facts_ok else ())
                 chk.obligation("SLOTS-U", construct, True if okk else (False if wit_ else None))
                 if wit_ and (key, "uu") not in reported:
                     reported.add((key, "uu"))
